@@ -270,7 +270,7 @@ impl Sim {
         if let Some(p) = pk {
             if out.ok {
                 if kind == 0 {
-                    if p.denom == staked_denom() {
+                    if p.denom == staked_denom() && p.receiver == n20(&self.w.k, "staker") {
                         self.g.acked_total += p.amount;
                     }
                     if p.callback {
